@@ -450,6 +450,42 @@ class _Misc(ast.NodeTransformer):
                 return ast.copy_location(lam, n)
         if isinstance(f, ast.Name) and f.id == "len" and len(n.args) == 1 and isinstance(n.args[0], ast.Constant) and isinstance(n.args[0].value, (str, bytes)):
             return ast.copy_location(ast.Constant(value=len(n.args[0].value)), n)
+        # dict(zip(("a", "b"), row)) -> {"a": row[0], "b": row[1]}
+        if isinstance(f, ast.Name) and f.id == "dict" and len(n.args) == 1 and not n.keywords and isinstance(n.args[0], ast.Call) and isinstance(n.args[0].func, ast.Name) and n.args[0].func.id == "zip" and len(n.args[0].args) == 2:
+            ks, vs = n.args[0].args
+            if isinstance(ks, (ast.Tuple, ast.List)) and all(isinstance(k, ast.Constant) for k in ks.elts) and isinstance(vs, ast.Name):
+                self.log.append(f"dict(zip(...)) {self.modname}:{n.lineno}")
+                return ast.copy_location(ast.Dict(keys=[ast.Constant(value=k.value) for k in ks.elts], values=[ast.Subscript(value=ast.Name(id=vs.id, ctx=ast.Load()), slice=ast.Constant(value=i), ctx=ast.Load()) for i in range(len(ks.elts))]), n)
+        # getattr(x, "name") -> x.name
+        if isinstance(f, ast.Name) and f.id == "getattr" and len(n.args) == 2 and isinstance(n.args[1], ast.Constant) and isinstance(n.args[1].value, str) and n.args[1].value.isidentifier():
+            return ast.copy_location(ast.Attribute(value=n.args[0], attr=n.args[1].value, ctx=ast.Load()), n)
+        # f(*[a, b], c) -> f(a, b, c)
+        if any(isinstance(a, ast.Starred) and isinstance(a.value, (ast.List, ast.Tuple)) for a in n.args):
+            new = []
+            for a in n.args:
+                if isinstance(a, ast.Starred) and isinstance(a.value, (ast.List, ast.Tuple)):
+                    new += list(a.value.elts)
+                else:
+                    new.append(a)
+            n.args = new
+        return n
+
+    def visit_ListComp(self, n):
+        self.generic_visit(n)
+        # [f(x) for x in ("a", "b")] -> [f("a"), f("b")]
+        if len(n.generators) == 1:
+            g = n.generators[0]
+            if not g.ifs and not g.is_async and isinstance(g.target, ast.Name) and isinstance(g.iter, (ast.Tuple, ast.List)) and 0 < len(g.iter.elts) <= 16 and all(isinstance(x, ast.Constant) for x in g.iter.elts):
+                elts = []
+                for c in g.iter.elts:
+                    e = _NameConst(g.target.id, c).visit(ast.parse(ast.unparse(n.elt), mode="eval").body)
+                    elts.append(e)
+                self.log.append(f"comprehension over literals unrolled {self.modname}:{n.lineno}")
+                new = ast.copy_location(ast.List(elts=elts, ctx=ast.Load()), n)
+                for x in ast.walk(new):
+                    if not hasattr(x, "lineno"):
+                        ast.copy_location(x, n)
+                return new
         return n
 
     def _unroll_in(self, stmts):
@@ -478,6 +514,101 @@ class _Misc(ast.NodeTransformer):
                         out.append(nb)
             else:
                 out.append(st)
+        return out
+
+    _NEVER_NONE = {"json.dumps", "str", "int", "float", "list", "dict", "tuple", "repr", "copy.deepcopy", "deepcopy"}
+
+    def _pairs_unroll_in(self, stmts):
+        """for k, v in {"a": x, "b": y}.items(): body   ->   body[k:="a", v:=x]; body[k:="b", v:=y]
+        (also for a name bound to such a dict literal just before, and for literal lists of pairs)"""
+        out = []
+        for idx, st in enumerate(stmts):
+            pairs = None
+            if isinstance(st, ast.For) and isinstance(st.target, ast.Tuple) and len(st.target.elts) == 2 and all(isinstance(t, ast.Name) for t in st.target.elts) and not st.orelse and len(st.body) <= 6 and not any(isinstance(x, (ast.Break, ast.Continue)) for b in st.body for x in ast.walk(b)):
+                it = st.iter
+                src = None
+                if isinstance(it, ast.Call) and isinstance(it.func, ast.Attribute) and it.func.attr == "items" and not it.args:
+                    src = it.func.value
+                elif isinstance(it, (ast.List, ast.Tuple, ast.Name)):
+                    src = it
+                if isinstance(src, ast.Name):
+                    prev = [x for x in out if isinstance(x, ast.Assign) and len(x.targets) == 1 and isinstance(x.targets[0], ast.Name) and x.targets[0].id == src.id]
+                    uses = sum(1 for b in stmts for x in ast.walk(b) if isinstance(x, ast.Name) and x.id == src.id)
+                    if len(prev) == 1 and uses == 2:
+                        src = prev[0].value
+                        drop = prev[0]
+                    else:
+                        src = None
+                        drop = None
+                else:
+                    drop = None
+                if isinstance(src, ast.Dict) and src.keys and all(isinstance(k, ast.Constant) for k in src.keys) and len(src.keys) <= 16:
+                    pairs = list(zip(src.keys, src.values))
+                elif isinstance(src, (ast.List, ast.Tuple)) and src.elts and len(src.elts) <= 16 and all(isinstance(e, ast.Tuple) and len(e.elts) == 2 and isinstance(e.elts[0], ast.Constant) for e in src.elts):
+                    pairs = [(e.elts[0], e.elts[1]) for e in src.elts]
+                tk, tv = st.target.elts[0].id, st.target.elts[1].id
+                if pairs is not None and any(isinstance(x, ast.Name) and x.id in (tk, tv) and isinstance(x.ctx, ast.Store) for b in st.body for x in ast.walk(b)):
+                    pairs = None
+            if pairs is None:
+                out.append(st)
+                continue
+            if drop is not None:
+                out = [x for x in out if x is not drop]
+            self.log.append(f"unrolled {self.modname}:{st.lineno} for {tk}, {tv} in <{len(pairs)} literal pairs>")
+            for k, v in pairs:
+                for b in st.body:
+                    nb = ast.parse(ast.unparse(b)).body[0]
+                    nb = _NameConst(tk, k).visit(nb)
+                    nb = _NameConst(tv, v).visit(nb)
+                    for x in ast.walk(nb):
+                        if hasattr(x, "lineno"):
+                            x.lineno = getattr(b, "lineno", st.lineno)
+                            x.end_lineno = getattr(b, "end_lineno", st.lineno)
+                    out.append(nb)
+        return out
+
+    def _simplify_in(self, stmts):
+        """setattr(x, "c", v) -> x.c = v ;  if (A if C else None) is not None: ...A'...  ->  if C: ...A...  (A never None)"""
+        # a local bound once (in this block) to a tuple / list of literals is read as that literal further down the block
+        lit = {}
+        for st in stmts:
+            if isinstance(st, ast.Assign) and len(st.targets) == 1 and isinstance(st.targets[0], ast.Name) and isinstance(st.value, (ast.Tuple, ast.List)) and st.value.elts and all(isinstance(e, ast.Constant) for e in st.value.elts):
+                nm = st.targets[0].id
+                stores = sum(1 for b in stmts for x in ast.walk(b) if isinstance(x, ast.Name) and x.id == nm and isinstance(x.ctx, (ast.Store, ast.Del)))
+                mutated = any(isinstance(x, ast.Attribute) and isinstance(x.value, ast.Name) and x.value.id == nm and x.attr in ("append", "extend", "insert", "pop", "remove", "sort", "reverse", "clear") for b in stmts for x in ast.walk(b))
+                if stores == 1 and not mutated:
+                    lit[nm] = st.value
+        if lit:
+            new_stmts = []
+            for st in stmts:
+                if isinstance(st, ast.Assign) and len(st.targets) == 1 and isinstance(st.targets[0], ast.Name) and st.targets[0].id in lit:
+                    new_stmts.append(st)
+                    continue
+                for nm, v in lit.items():
+                    st = _NameConst(nm, v).visit(st)
+                new_stmts.append(st)
+            stmts = new_stmts
+        out = []
+        for st in stmts:
+            if isinstance(st, ast.Expr) and isinstance(st.value, ast.Call) and isinstance(st.value.func, ast.Name) and st.value.func.id == "setattr" and len(st.value.args) == 3 and isinstance(st.value.args[1], ast.Constant) and isinstance(st.value.args[1].value, str) and st.value.args[1].value.isidentifier():
+                a = st.value.args
+                out.append(ast.copy_location(ast.Assign(targets=[ast.Attribute(value=a[0], attr=a[1].value, ctx=ast.Store())], value=a[2]), st))
+                continue
+            if isinstance(st, ast.If) and isinstance(st.test, ast.Compare) and len(st.test.ops) == 1 and isinstance(st.test.ops[0], ast.IsNot) and isinstance(st.test.comparators[0], ast.Constant) and st.test.comparators[0].value is None and isinstance(st.test.left, ast.IfExp):
+                ie = st.test.left
+                if isinstance(ie.orelse, ast.Constant) and ie.orelse.value is None and isinstance(ie.body, ast.Call) and ast.unparse(ie.body.func) in self._NEVER_NONE:
+                    txt = ast.unparse(ie)
+
+                    class R(ast.NodeTransformer):
+                        def visit_IfExp(self_, n):
+                            if ast.unparse(n) == txt:
+                                return ast.parse(ast.unparse(ie.body), mode="eval").body
+                            return self_.generic_visit(n)
+
+                    st.test = ie.test
+                    st.body = [R().visit(b) for b in st.body]
+                    ast.fix_missing_locations(st)
+            out.append(st)
         return out
 
     def _untuple_in(self, stmts):
@@ -524,7 +655,7 @@ class _Misc(ast.NodeTransformer):
         for field in ("body", "orelse", "finalbody"):
             blk = getattr(node, field, None)
             if isinstance(blk, list) and blk and isinstance(blk[0], ast.stmt):
-                setattr(node, field, self._untuple_in(self._unroll_in(blk)))
+                setattr(node, field, self._simplify_in(self._untuple_in(self._pairs_unroll_in(self._unroll_in(blk)))))
         return node
 
 
@@ -619,8 +750,9 @@ def run(modules, known_funcs):
     recover_renames(modules, known_funcs, log)
     inline_constants(modules, log)
     for mi in modules.values():
-        mi.tree = _Misc(log, mi.name).visit(mi.tree)
-        ast.fix_missing_locations(mi.tree)
+        for _pass in range(2):  # statements produced by one rewrite are themselves rewritten in the second pass
+            mi.tree = _Misc(log, mi.name).visit(mi.tree)
+            ast.fix_missing_locations(mi.tree)
         for n in ast.walk(mi.tree):
             if isinstance(n, (ast.FunctionDef, ast.AsyncFunctionDef)):
                 rows_comprehension_to_loop(n, log, mi.name)
